@@ -139,6 +139,8 @@ Inductive out :=
 
 Inductive action :=
 | Advance (dt : Z)
+| AdvanceInCall (dt : Z)   (* the clock moves while threads are inside storage calls / between a call's
+                              effect and the code's reaction: outside the urgency assumption *)
 | ExtDelete (k : N)
 | AcqCall (p : nat) (k v : N) (d : Z)
 | InsEff (p : nat) (o : outcome)
@@ -166,6 +168,9 @@ Definition quiet_li (t : Z) (l : linfo) : bool :=
   | MRetry dl rt => llive l && (t <=? dl) && (t <=? rt)
   | _ => false
   end.
+(* a slow storage call: only the parked threads' timers bound the advance *)
+Definition slow_ok (t : Z) (l : linfo) : bool :=
+  match lph l with MWait _ | MRetry _ _ => quiet_li t l | _ => true end.
 Definition idle_part (p : part) : bool := match papi p with AIdle => true | _ => false end.
 
 (* releaseLeadership called by the goroutine of leaderInfo i (value li): LoadAndDelete, then the
@@ -191,6 +196,9 @@ Definition step (c : cfg) (s : state) (a : action) : option (state * out) :=
   match a with
   | Advance dt =>
     if (0 <=? dt) && forallb idle_part (parts s) && forallb (quiet_li (now s + dt)) (lis s)
+    then Some (set_now (now s + dt) s, ONone) else None
+  | AdvanceInCall dt =>
+    if (0 <=? dt) && forallb (slow_ok (now s + dt)) (lis s)
     then Some (set_now (now s + dt) s, ONone) else None
   | ExtDelete k => Some (set_stg (sdel k (stg s)) s, ONone)
   | AcqCall p k v d =>
@@ -442,7 +450,7 @@ Definition agrees (t : trace) : bool := agrees_from go_cfg (init (t_np t)) (t_ba
 (* what the observer knows about a context: participant, key, value, duration, last success *)
 Record cinfo := mkCi { ci_p : nat; ci_k : N; ci_v : N; ci_d : Z; ci_last : Z }.
 Record ost := mkOst {
-  os_pend : list (nat * (N * N * Z));   (* AcquireLeadership calls in progress *)
+  os_pend : list (nat * (N * N * Z * Z)); (* AcquireLeadership calls in progress: key, value, D, instant of the insert *)
   os_ctx : list cinfo;                  (* contexts handed out *)
   os_vals : list (nat * N);             (* values each participant ever used *)
   os_open : list nat;                   (* participants inside ReleaseLeadership / cleanup *)
@@ -491,15 +499,19 @@ Definition upd_last (id : nat) (t : Z) (cs : list cinfo) : list cinfo :=
 (* one observed action at clock t: what the observer learns (None: inconsistent record) *)
 Definition sat_ev (t : Z) (o : ost) (e : action * out) : option ost :=
   match e with
-  | (AcqCall p k v d, OGate _ _ _ _) => Some (mkOst ((p, (k, v, d)) :: os_pend o) (os_ctx o) ((p, v) :: os_vals o) (os_open o) (os_ext o))
+  | (AcqCall p k v d, OGate _ _ _ _) => Some (mkOst ((p, (k, v, d, t)) :: os_pend o) (os_ctx o) ((p, v) :: os_vals o) (os_open o) (os_ext o))
   | (AcqCall p k v d, _) => Some (mkOst (os_pend o) (os_ctx o) ((p, v) :: os_vals o) (os_open o) (os_ext o))
   | (InsRet p, ORetCtx id) =>
     match aget p (os_pend o) with
-    | Some (k, v, d) =>
+    | Some (k, v, d, t0) =>
       if Nat.eqb id (length (os_ctx o))
-      then Some (mkOst (adel p (os_pend o)) (os_ctx o ++ [mkCi p k v d t]) (os_vals o) (os_open o) (os_ext o))
+      then Some (mkOst (adel p (os_pend o)) (os_ctx o ++ [mkCi p k v d t0]) (os_vals o) (os_open o) (os_ext o))
       else None
     | None => None end
+  | (InsEff p _, ORes RTrue) =>
+    match aget p (os_pend o) with
+    | Some (k, v, d, _) => Some (mkOst ((p, (k, v, d, t)) :: adel p (os_pend o)) (os_ctx o) (os_vals o) (os_open o) (os_ext o))
+    | None => Some o end
   | (InsRet p, _) => Some (mkOst (adel p (os_pend o)) (os_ctx o) (os_vals o) (os_open o) (os_ext o))
   | (CasEff i _, ORes RTrue) => Some (mkOst (os_pend o) (upd_last i t (os_ctx o)) (os_vals o) (os_open o) (os_ext o))
   | (RelCall p _, OGate _ _ _ _) | (ClnCall p, _) => Some (mkOst (os_pend o) (os_ctx o) (os_vals o) (p :: os_open o) (os_ext o))
@@ -519,7 +531,7 @@ Definition store_ok (o : ost) (prev : list (N * option N)) (b : batch) : bool :=
   | (ApiCadEff p _, _) :: _ => own_only p (os_vals o) prev (o_store (b_obs b))
   | (GCadEff i _, _) :: _ =>
     match nth_error (os_ctx o) i with Some c => own_only (ci_p c) (os_vals o) prev (o_store (b_obs b)) | None => false end
-  | (Advance _, _) :: _ | (ExtDelete _, _) :: _ | (InsEff _ _, _) :: _ | (CasEff _ _, _) :: _ => true
+  | (Advance _, _) :: _ | (AdvanceInCall _, _) :: _ | (ExtDelete _, _) :: _ | (InsEff _ _, _) :: _ | (CasEff _ _, _) :: _ => true
   | _ => same_store prev (o_store (b_obs b))      (* calls and returns touch no record *)
   end.
 Definition sat_batch (o : ost) (prev : list (N * option N)) (b : batch) : option ost :=
